@@ -30,7 +30,7 @@ checks = {
     text="Lock-step equality of every call result and of stats / tree_stats (all fields) / sampled stats_at between the original and the allocator rebuilt from its metadata, over seeded continuations including drains and tree changes.",
     note="one handoff per history at a random point", ref="DESIGN.md §4 C07"),
  "C08": dict(cat="exploration", tech=T_SEQ + " with injected malformed calls and malformed metadata buffers",
-    text="Malformed calls (order up to TREE_ORDER+3, frames at/after the range end, misaligned, near usize::MAX, unconfigured classes) are mixed into random histories; each must return the invalid-argument error and leave frame state, tree array and fast counters unchanged. Construction with each buffer one byte short, shifted by 1..63 bytes or overlapping another must return the initialization error.",
+    text="Malformed calls (order up to TREE_ORDER+3, frames at/after the range end, misaligned, near usize::MAX, unconfigured classes) are mixed into random histories; each must return the invalid-argument error and leave frame state, tree array and fast counters unchanged. Construction with each buffer one byte short, shifted by 1..63 bytes or overlapping another must return the initialization error. Family QC: class configurations with ids drawn from 0..8 (not 0..n-1), calls naming an unconfigured id must be rejected without side effects.",
     note="zone-offset rejection is covered by the C17 check", ref="DESIGN.md §4 C08"),
  "C09": dict(cat="exploration", tech=T_SEQ + " over the opened-up configuration space (zero frames, zero-slot classes, zeroed policy, any tree id, targeted gets with slots)",
     text="Every call of every history runs under catch_unwind; a panic (message + file = signature) is a violation. Aborts are seen as worker deaths and attributed to the announced run.",
